@@ -24,3 +24,55 @@ Proof.
   rewrite collapse_preconditions_refines. destruct (is_nil bg && have && negb (is_nil og)); [discriminate|].
   intros H. injection H as <-. reflexivity.
 Qed.
+
+(** ** [_collapse_snapshots]: the same snapshot object reached along several paths is kept once
+    (first occurrence); two different snapshots with one name are rejected. *)
+Definition seen_before (x : pv) (acc : list pv) : bool := existsb (fun y => pv_eqb x y) acc.
+
+Definition dedupe_pv (l : list pv) : list pv :=
+  fold_left (fun acc x => if seen_before x acc then acc else acc ++ [x]) l [].
+
+Fixpoint names_clash (l : list pv) (seen : list pv) : bool :=
+  match l with
+  | [] => false
+  | x :: r => pv_in (py_attr x "name") seen
+              || names_clash r (if pv_in (py_attr x "name") seen then seen else seen ++ [py_attr x "name"])
+  end.
+
+Lemma fold_res_total {S X} (f : S -> X -> res S) (g : S -> X -> S) l :
+  (forall s x, f s x = Ok (g s x)) -> forall s, fold_res f l s = Ok (fold_left g l s).
+Proof. intros H. induction l as [|x r IH]; intro s; cbn; [reflexivity|]. rewrite H. apply IH. Qed.
+
+Lemma names_loop l : forall seen,
+  fold_res (fun seen_names snap =>
+              if py_truth (py_in (py_attr snap "name") seen_names) then Err "ValueError"
+              else Ok (py_set_add seen_names (py_attr snap "name"))) l (PList seen)
+  = if names_clash l seen then Err "ValueError"
+    else Ok (PList (fold_left (fun sn x => if pv_in (py_attr x "name") sn then sn else sn ++ [py_attr x "name"]) l seen)).
+Proof.
+  induction l as [|x r IH]; intro seen; cbn [fold_res names_clash fold_left]; [reflexivity|].
+  cbn [py_in py_truth]. destruct (pv_in (py_attr x "name") seen) eqn:E; cbn [orb]; [reflexivity|].
+  cbn [py_set_add]. rewrite E. apply IH.
+Qed.
+
+Theorem collapse_snapshots_refines (bs os : list pv) :
+  collapse_snapshots (PList bs) (PList os)
+  = if names_clash (dedupe_pv (bs ++ os)) [] then Err "ValueError" else Ok (PList (dedupe_pv (bs ++ os))).
+Proof.
+  unfold collapse_snapshots. cbn [py_add py_iter].
+  rewrite (fold_res_total _ (fun collapsed snap =>
+             if py_truth (py_not (PBool (existsb (fun y => py_truth (py_eq snap y)) (py_iter collapsed))))
+             then py_append collapsed snap else collapsed)).
+  2:{ intros s x. destruct (py_truth _); reflexivity. }
+  cbn [bind].
+  assert (F : forall l acc,
+            fold_left (fun collapsed snap =>
+                         if py_truth (py_not (PBool (existsb (fun y => py_truth (py_eq snap y)) (py_iter collapsed))))
+                         then py_append collapsed snap else collapsed) l (PList acc)
+            = PList (fold_left (fun acc x => if seen_before x acc then acc else acc ++ [x]) l acc)).
+  { induction l as [|x r IH]; intro acc; cbn [fold_left]; [reflexivity|].
+    cbn [py_iter py_not py_truth py_eq]. unfold seen_before.
+    destruct (existsb (fun y => pv_eqb x y) acc); cbn [negb py_append]; apply IH. }
+  rewrite F. fold (dedupe_pv (bs ++ os)). cbn [py_iter].
+  rewrite names_loop. destruct (names_clash (dedupe_pv (bs ++ os)) []); reflexivity.
+Qed.
